@@ -6,6 +6,7 @@ import (
 	"fmt"
 	"reflect"
 	"sort"
+	"strconv"
 	"strings"
 	"sync/atomic"
 	"time"
@@ -213,13 +214,33 @@ func e2eChecks(r *evid.Run, record recordFn) {
 			}
 		}
 	}
+	// a PAC the service cannot even read as a container: every bit of cBuffers and Version, a bit of each table field, cuts
+	// inside the header and the table (the ticket still says "here is a PAC", so the request must fail)
+	for k := 0; k < 64; k++ {
+		jobs = append(jobs, job{"win2k", pacfmt.SigTypes[k%len(pacfmt.SigTypes)], fmt.Sprintf("bit:%d", k)})
+	}
+	for k := 0; k < 5*16; k++ {
+		jobs = append(jobs, job{"win2k", pacfmt.SigTypes[k%len(pacfmt.SigTypes)], fmt.Sprintf("bit:%d", 64+8*k+(k*5)%8)})
+	}
+	for k, n := range []int{0, 1, 4, 7, 8, 9, 23, 24, 25, 40, 87, 88, 89} {
+		jobs = append(jobs, job{[]string{"win2k", "ms", "trust"}[k%3], pacfmt.SigTypes[k%len(pacfmt.SigTypes)], fmt.Sprintf("cut:%d", n)})
+	}
 	evid.Parallel(len(jobs), workers(), func(ji int) {
 		j := jobs[ji]
 		lbl := fmt.Sprintf("c19/e2e/%s/%d", j.base, j.alg)
 		kalg := pacfmt.SigTypes[ji%len(pacfmt.SigTypes)]
 		sk, kk := seededKeys(r.Seed(), lbl, j.alg, kalg)
 		c := Case{Kind: "e2e", Bufs: append([]Buf{}, enumBases[j.base]...), SrvAlg: j.alg, KDCAlg: kalg, SrvKey: sk, KDCKey: kk, T: Tamper{Kind: "none"}}
+		var arg int
+		if m, a, ok := strings.Cut(j.mode, ":"); ok {
+			j.mode = m
+			arg, _ = strconv.Atoi(a)
+		}
 		switch j.mode {
+		case "bit":
+			c.T = Tamper{Kind: "bit", Bit: arg}
+		case "cut":
+			c.T = Tamper{Kind: "cut", Bit: arg}
 		case "valid-times-in-range":
 			// every FILETIME the application sees is set to a value time.Time's nanosecond constructors can hold
 			c.Bufs[0].Patch = []Patch{{Field: "LogoffTime", Value: 140000000000000000}, {Field: "PasswordLastSet", Value: 131000000000000000}}
@@ -249,6 +270,18 @@ func e2eChecks(r *evid.Run, record recordFn) {
 	r.Rapid("e2e-gen", r.N(300, 3000), func(t *rapid.T) {
 		c := genValid(t, "e2e", true)
 		c = genTamper(t, c, false)
+		if c.T.Kind == "none" && rapid.IntRange(0, 3).Draw(t, "container-damage") == 0 {
+			// the container itself: a bit of the header or the buffer table, or a cut (in this process: the flips that make
+			// the NDR decoder ask for gigabytes lie in the buffers and are left to the crash-isolated flip workers)
+			if b0, err := build(Case{Kind: "layout", Bufs: c.Bufs, DataOrder: c.DataOrder, Gap: c.Gap, Fill: c.Fill, Tail: c.Tail, SrvAlg: c.SrvAlg, SrvKey: c.SrvKey, KDCAlg: c.KDCAlg, KDCKey: c.KDCKey, T: Tamper{Kind: "none"}}); err == nil {
+				h := pacfmt.HeaderLen(len(b0.entries))
+				if rapid.Bool().Draw(t, "cut") {
+					c.T = Tamper{Kind: "cut", Bit: rapid.IntRange(0, min(h+8, len(b0.pac)-1)).Draw(t, "cut-at")}
+				} else {
+					c.T = Tamper{Kind: "bit", Bit: rapid.IntRange(0, 8*h-1).Draw(t, "header-bit")}
+				}
+			}
+		}
 		cc := c
 		cc.Kind = "layout"
 		b, err := build(cc)
